@@ -287,6 +287,7 @@ def gen_module(rng, index):
     if rng.random() < 0.5:
         lines.append('"""module docstring 漢字"""')
     depth = rng.randint(1, 3)
+    odd_breaks = rng.random() < 0.12
     names = ["f%d_%d" % (index, i) for i in range(depth)]
     raise_lines = {}
     for i in reversed(range(depth)):
@@ -295,6 +296,14 @@ def gen_module(rng, index):
         for _ in range(rng.randint(0, 4)):
             stmt = rng.choice(["    y = x + 1", "    # comment", "", "    z = [x,\n         x]", "    pass"])
             lines.extend(stmt.split("\n"))
+        if odd_breaks:
+            # characters that str.splitlines() treats as line ends although neither Python nor Rich's own line
+            # counting does: a form feed on a line of its own (a page break, legal between statements), LINE / PARAGRAPH
+            # SEPARATOR, NEL and the information separators inside comments and string constants
+            for _ in range(rng.randint(1, 6)):
+                stmt = rng.choice(["\x0c", "    # part one\u2028part two", "    sep = 'a\u2029b'", "    nel = 'x\x85y'  # n\x85l",
+                                   "    fs = '\x1c\x1d\x1e'", "\x0c"])
+                lines.append(stmt)
         if i == depth - 1:
             lines.append(rng.choice(["    raise ValueError('boom %d' % x)", "    return 1 / (x - x)",
                                      "    return {}['missing' + str(x)]"]))
@@ -315,7 +324,7 @@ def gen_module(rng, index):
             lines.append(rng.choice(["    # after", "", "    unreachable = 1"]))
     lines += [""] * rng.choice([0, 1, 3])
     src = "\n".join(lines) + ("\n" if rng.random() < 0.8 else "")
-    return src, {"entry": names[0], "raise_lines": raise_lines}
+    return src, {"entry": names[0], "raise_lines": raise_lines, "odd_breaks": odd_breaks}
 
 
 _tmpdir = None
